@@ -166,6 +166,46 @@ func HarnessC02Inject() {
 		noBody = svPick("file-only", 2) == 1
 	}
 	val := svBytes("v", n)
+	hxC02Check(which, val, menc, multipart, noBody, n <= svParam("rtmax", 2))
+}
+
+var hxC02Runs = []int{2, 75, 76, 200, 1, 3, 60, 74, 77, 80}
+var hxC02Tails = []int{1, 72, 73, 60, 71, 80}
+
+// HarnessC02LongValue: values built from a word, a run of blanks of many
+// lengths (around the fold column and beyond a whole line), n symbolic bytes
+// and a final blank-free token of many lengths (around the line limit).
+func HarnessC02LongValue() {
+	n := svParam("n", 1)
+	setters := []int{hxSetSubject, hxSetGenHeader, hxSetOrganization, hxSetUserAgent, hxSetFileDesc, hxSetPartDescOpt}
+	which := setters[svPick("setter", len(setters))]
+	menc := hxEnc(svPick("menc", svParam("mencs", 2)))
+	noBody := false
+	if which == hxSetFileDesc {
+		noBody = svPick("file-only", 2) == 1
+	}
+	run := hxC02Runs[svPick("blank-run", svParam("runs", len(hxC02Runs)))]
+	tail := hxC02Tails[svPick("tail-token", svParam("tails", len(hxC02Tails)))]
+	lead := svPick("lead-word", 2) // 0: value starts with the blank run's word "Hello", 1: a 58-character word first
+	var val []byte
+	if lead == 1 {
+		for i := 0; i < 58; i++ {
+			val = append(val, 'a')
+		}
+	} else {
+		val = append(val, "Hello"...)
+	}
+	for i := 0; i < run; i++ {
+		val = append(val, ' ')
+	}
+	val = append(val, svBytes("v", n)...)
+	for i := 0; i < tail; i++ {
+		val = append(val, byte('b'+i%20))
+	}
+	hxC02Check(which, val, menc, false, noBody, true)
+}
+
+func hxC02Check(which int, val []byte, menc Encoding, multipart, noBody, roundTrip bool) {
 	v := string(val)
 	base := hxBuildC02(which, "benign", menc, multipart && !noBody, noBody)
 	if base == nil {
@@ -221,7 +261,7 @@ func HarnessC02Inject() {
 			svAssert(hxEqBytes(eb[i].body, et[i].body), sn+"body-changed")
 		}
 	}
-	if n > svParam("rtmax", 2) {
+	if !roundTrip {
 		return
 	}
 	// value round trip
